@@ -51,11 +51,14 @@ def scan_assumptions(text):
 
 
 def write_replay(pid, obligation, body):
+    """one replay file per failed obligation; further failures of the same obligation are appended"""
     d = os.path.join(OUT, "replays", pid)
     os.makedirs(d, exist_ok=True)
     safe = re.sub(r"[^A-Za-z0-9_.-]", "_", obligation)
     p = os.path.join(d, safe + ".txt")
-    with open(p, "w") as f:
+    with open(p, "a") as f:
+        if f.tell():
+            f.write("\n" + "=" * 78 + "\n")
         f.write(body)
     return p
 
@@ -299,7 +302,11 @@ def main():
 
     for ob, what in known_lines:
         print("KNOWN-FINDING: property=%s %s: %s" % (args.pid, ob, what))
+    seen_ob = set()
     for ob, path, noinput in violations:
+        if ob in seen_ob:
+            continue
+        seen_ob.add(ob)
         print("VIOLATION property=%s replay=%s obligation=%s%s" % (
             args.pid, path, ob, " no-failing-input-found" if noinput else ""))
     for u in undecided:
